@@ -73,6 +73,10 @@ func (e *Engine) execInstr(f *frame, ins ssa.Instruction) {
 			bail("address of a field of a cell")
 		}
 		r.Path = p.Path + "." + fld.Name()
+		if at, isArr := fld.Type().Underlying().(*types.Array); isArr && p.Root == RootObj {
+			// an array embedded in a struct is an array object of its own (slices of it alias it)
+			r = Val{T: x.Type(), C: []*smt.Term{e.subRef(p.ref(), p.RootT, r.Path), X.Const(0, 64)}, Root: RootArr, RootT: typeKey(at.Elem())}
+		}
 		f.vals[x] = r
 	case *ssa.Index:
 		arr := e.operand(f, x.X)
@@ -209,6 +213,7 @@ func (e *Engine) doAlloc(f *frame, x *ssa.Alloc) Val {
 			h := e.heap(f.st, key, c.Sort)
 			e.setHeap(f.st, key, e.X.Store(h, ref, e.zeroOf(c.Sort)))
 		}
+		e.zeroEmbeddedArrays(f.st, ref, typeKey(t), "", u)
 		return Val{T: x.Type(), C: []*smt.Term{ref, e.X.Const(0, 64)}, Root: RootObj, RootT: typeKey(t)}
 	}
 	c := &Cell{Name: x.Comment, T: t}
@@ -737,4 +742,23 @@ func (e *Engine) snapshotBytes(st *State, s Val) *smt.Term {
 
 func (e *Engine) isNilIface(v Val) bool {
 	return len(v.C) == 2 && v.C[0].IsConst() && v.C[0].V == 0 && v.C[1].IsConst() && v.C[1].V == 0
+}
+
+// zeroEmbeddedArrays zero-initialises the array objects embedded in a freshly allocated struct.
+func (e *Engine) zeroEmbeddedArrays(st *State, ref *smt.Term, rootT, path string, u *types.Struct) {
+	for i := 0; i < u.NumFields(); i++ {
+		fl := u.Field(i)
+		p := path + "." + fl.Name()
+		switch ft := fl.Type().Underlying().(type) {
+		case *types.Array:
+			sr := e.subRef(ref, rootT, p)
+			for _, c := range comps(ft.Elem()) {
+				key := "arr:" + typeKey(ft.Elem()) + "/" + c.Suffix
+				h := e.heap(st, key, c.Sort)
+				e.setHeap(st, key, e.X.Store(h, sr, e.zeroOf(smt.Array(IntSort, c.Sort))))
+			}
+		case *types.Struct:
+			e.zeroEmbeddedArrays(st, ref, rootT, p, ft)
+		}
+	}
 }
